@@ -8,6 +8,8 @@ import (
 	"encoding/json"
 	"flag"
 	"fmt"
+	"github.com/Masterminds/semver"
+	"github.com/nyaruka/goflow/flows/definition/migrations"
 	"math/rand"
 	"strings"
 	"time"
@@ -266,6 +268,43 @@ func processExpr(env envs.Environment, line *C11Line) {
 			if t1 != t2 && line.RenameOK {
 				line.RenameOK = false
 				line.RenameDiff = fmt.Sprintf("context %d: %q vs %q (renamed: %s)", ci, t1, t2, ren)
+			}
+		}
+	}
+	// the renaming as a flow migration applies it (13.3: webhook -> webhook.json): the references to a are first spelled
+	// as the webhook, in one of the letter cases that reference lookup accepts, the template is put into a 13.2 flow and
+	// migrated; with the webhook's old value moved to .json the migrated template must evaluate like the original
+	if rerr == nil && line.RenameOK {
+		spelling := []string{"webhook", "WebHook", "WEBHOOK"}[len(line.Text)%3]
+		wtops := []string{"a", "f", "x", "z", "webhook"}
+		tplW, werr := refactor.Template(tpl, tops, refactor.ContextRefRename("a", "webhook"))
+		if werr == nil {
+			tplW = strings.ReplaceAll(tplW, "webhook", spelling) // (the printer writes references in lower case)
+			flow := mustJSON(M{"uuid": flowUUID(1), "name": "M", "spec_version": "13.2.0", "language": "eng", "type": "messaging", "nodes": []M{
+				{"uuid": nodeUUID(1, 1), "actions": []M{{"uuid": actionUUID(1, 1, 1), "type": "send_msg", "text": tplW}}, "exits": []M{{"uuid": exitUUID(1, 1, 1)}}}}})
+			migrated, merr := migrations.MigrateToVersion(flow, semver.MustParse("13.3.0"), nil)
+			var mf struct {
+				Nodes []struct {
+					Actions []struct {
+						Text string `json:"text"`
+					} `json:"actions"`
+				} `json:"nodes"`
+			}
+			if merr == nil && json.Unmarshal(migrated, &mf) == nil && len(mf.Nodes) == 1 && len(mf.Nodes[0].Actions) == 1 {
+				mtext := mf.Nodes[0].Actions[0].Text
+				_ = wtops
+				for ci, ctx := range c11Contexts() {
+					a, _ := ctx.Get("a")
+					f, _ := ctx.Get("f")
+					x, _ := ctx.Get("x")
+					oldCtx := types.NewXObject(map[string]types.XValue{"webhook": a, "f": f, "x": x})
+					newCtx := types.NewXObject(map[string]types.XValue{"webhook": types.NewXObject(map[string]types.XValue{"json": a, "status": types.NewXNumberFromInt(200), "__default__": types.NewXText("GET http://x")}), "f": f, "x": x})
+					t1, t2 := evalTemplateText(env, oldCtx, tplW), evalTemplateText(env, newCtx, mtext)
+					if t1 != t2 && line.RenameOK {
+						line.RenameOK = false
+						line.RenameDiff = fmt.Sprintf("13.3 migration, context %d: %q before vs %q after (%s -> %s)", ci, t1, t2, tplW, mtext)
+					}
+				}
 			}
 		}
 	}
